@@ -1,3 +1,5 @@
+import Hcl.Theorems.C01
+import Hcl.Proofs.Stage3
 import Hcl.Proofs.EvalCorrect
 import Hcl.Model.Step
 open Rust
@@ -80,3 +82,70 @@ example : Spec.dv exΓ (val exσ) (.un .not (.wire "z")) = some 1 := by decide
 example : Spec.dv exΓ (val exσ) (.bin .shr (.wire "b") (.const ⟨127, .unlimited⟩)) = some 1 := by decide
 example : Spec.dv exΓ (val exσ) (.bin .shl (.wire "b") (.const ⟨1, .unlimited⟩)) = some 0 := by decide
 example : Spec.dv exΓ (val exσ) (.bin .div (.wire "a") (.wire "z")) = none := by decide
+
+/-! ### for every accepted program -/
+
+/-- **C02 for every accepted program**: at the end of every cycle that completes, every assigned wire holds the
+    value the specification gives its source expression under the final valuation, truncated to the wire's declared
+    width — `t(n) = ⟦e₀⟧_t mod 2^w` — where `e₀` is an expression the checker accepts and whose width-fixed form is
+    what the program evaluates.  With `C01_accepted` (that valuation is the unique one satisfying all definitions) this
+    says: a cycle computes the unique solution of the program's equations, operator by operator as HCL defines them. -/
+theorem C02_accepted (fl : Flags) (cls : CharClass) (o : Orders) (stmts : List Stmt) (p : Program)
+    (ho : OrdersOK o) (hwf : StmtsWF stmts)
+    (h : Program.new fl cls o y86FixedFunctions stmts = .ok p) :
+    ∃ (W : AMap Width) (known : List String),
+      (∃ vals, p.initialValues = .ok vals ∧ ValsOK W.toCtx vals ∧ (∀ n ∈ known, vals.contains n = true)) ∧
+      ∀ (s t : State), StateOK W.toCtx s → (∀ n ∈ known, s.values.contains n = true) →
+        execActions fl p.actions s = .ok t →
+        ∀ n e w, Action.assign n e w ∈ p.actions →
+          ∃ e₀ ew x, e = fixMux fl W.toCtx p.constants.toEnv e₀ ∧ check fl W.toCtx p.constants.toEnv e₀ = .ok ew ∧
+            W.get? n = some w ∧ Spec.dv W.toCtx (val t.values.toEnv) e₀ = some x ∧
+            t.values.toEnv n = some ⟨Spec.stored w x, w⟩ := by
+  obtain ⟨W, known, pre, fin, hp, ⟨vals, hv1, hv2, hv3, _⟩, hsplit, hvalid, hfin⟩ := Program_new_all fl cls o stmts p ho hwf h
+  refine ⟨W, known, ⟨vals, hv1, hv2, hv3⟩, ?_⟩
+  intro s t hs hav hex n e w hmem
+  -- the action is one of the value-writing ones
+  have hpre : Action.assign n e w ∈ pre := by
+    rw [hsplit] at hmem
+    rcases List.mem_append.mp hmem with h1 | h1
+    · exact h1
+    · have := hfin _ h1; simp [Action.isPure] at this
+  -- its well-typedness
+  obtain ⟨hΓn, e₀, ew, he, hwfe, hck⟩ := hp.actions _ hmem
+  -- the state after the actions is well-typed and holds every wire the action reads
+  rcases execActions_sound hp.ctx p.actions s known hs hp.actions hp.sched hav with ⟨t', ht', hst', hmono, hwr, _⟩ | herr
+  · rw [hex] at ht'
+    simp only [Except.ok.injEq] at ht'
+    subst ht'
+    have hpresent : Present t.values (refs e₀) := by
+      intro r hr
+      have hr' : r ∈ (Action.assign n e w).reads := by
+        simp only [Action.reads, he, refs_fixMux]; exact hr
+      rcases sched_reads known p.actions hp.sched _ hmem r hr' with h1 | h1
+      · exact hmono r (hav r h1)
+      · simp only [writesOf, List.mem_flatMap] at h1
+        obtain ⟨b, hb, hrb⟩ := h1
+        exact hwr b hb r hrb
+    have hon : EnvOn W.toCtx t.values.toEnv (refs e₀) := envOn_of hst'.vals (refs e₀) hpresent
+    obtain ⟨_, _, hcorr⟩ := ev_correct (fl := fl) (Γ := W.toCtx) (κ := p.constants.toEnv) (σ := t.values.toEnv)
+      hp.ctx e₀ ew hon hwfe hck
+    -- settlement: the wire holds its definition evaluated in the final valuation
+    rw [hsplit] at hex
+    obtain ⟨v, hdef, hval⟩ := C01_settlement fl pre fin s t hvalid hfin hex _ hpre
+    simp only [Action.defn, Action.out] at hdef hval
+    cases hd : Spec.dv W.toCtx (val t.values.toEnv) e₀ with
+    | none =>
+      rw [hd] at hcorr
+      simp only at hcorr
+      rw [he, hcorr] at hdef
+      simp [bind, Except.bind] at hdef
+    | some x =>
+      rw [hd] at hcorr
+      simp only at hcorr
+      refine ⟨e₀, ew, x, he, hck, hΓn, hd, ?_⟩
+      rw [he, hcorr.1] at hdef
+      have hwok : w.ok := hp.ctx n w hΓn
+      simp only [bind, Except.bind, asWidth_ok _ w hwok, Except.ok.injEq] at hdef
+      rw [hval, ← hdef]
+      rfl
+  · rw [hex] at herr; cases herr
